@@ -2,17 +2,25 @@
    abstracted to an oracle [sigma : list ident -> list ident] ("the order in which the set
    whose elements are these names is iterated").  Model only: no proofs here.
 
-   parser.py  _promote_branch_decls  (for name in new_names ...)            -> [promote_if]
-   parser.py  while / for handlers   (_collect_order, then "for name in promoted_set")
-                                                                           -> [promote_loop]
+   The code as it is (after `fix: hoisted declarations come out in sorted order`): every set whose
+   iteration reaches the emitted text is walked through sorted(...):
+
+   parser.py  _promote_branch_decls  (for name in sorted(new_names) ..., two sites)   -> [promote_branch]
+   parser.py  while / for handlers   (_collect_order, then "for name in sorted(promoted_set)")
+                                                                                      -> [loop_order]
    parser.py  parse(): sorted(lcd_tick_names), sorted(button_poll_names);
-   emitter.py emit():  sorted(ultrasonic_measurements)                     -> [sorted_site]
-   parser.py  _merge_return_types: unique.pop() under len(unique) == 1     -> [pop_site]
+   emitter.py emit():  sorted(ultrasonic_measurements)                                -> [sorted_site]
+   parser.py  _merge_return_types: unique.pop() under len(unique) == 1                -> [pop_site]
+
+   The promotion algorithm is written once, over [iter : list ident -> list ident] = "the sequence the
+   `for name in ...` statement walks, given the elements of the set" ([promote_with], [transl_with]).
+   The code is the instance [iter = sorted_oracle sigma] (sorted() applied to the set as iterated under
+   sigma): [promote], [transl].  The instance [iter = sigma] (no sorted(): the code before the repair,
+   finding F-C10-promotion-order) is kept only for the statements that say what the sorted() calls buy.
 
    [transl] is the declaration-and-block skeleton of the whole translation for the fragment
-   assignment-of-a-literal / if-elif-else / while / for-range / try-except / def / while True,
-   built from [promote_if] and [promote_loop]; it is what the harness runs against the real
-   parse()+emit(). *)
+   assignment-of-a-literal / if-elif-else / while / for-range / try-except / def / while True;
+   it is what the harness runs against the real parse()+emit(). *)
 From Coq Require Import ZArith List Bool Permutation String Ascii.
 From RV Require Import Base.Wire Base.Text.
 Import ListNotations.
@@ -48,13 +56,14 @@ Definition type_in (br : list decl) (x : ident) : ty :=
 
 (* ---------------------------------------------------------------- the promotion algorithm *)
 Section Oracle.
+  (* the sequence a `for name in <...>` statement over a set of these names walks *)
   Variable sigma : list ident -> list ident.
 
   (* record(name, child_ctx) of _promote_branch_decls *)
   Definition record (parent : list ident) (br : list decl) (acc : list decl) (x : ident) : list decl :=
     if tmem x parent || tmem x (map fst acc) then acc else acc ++ [(x, type_in br x)].
 
-  (* one branch: "for name in new_names: record(name, child_ctx)" *)
+  (* one branch: "for name in <sigma new_names>: record(name, child_ctx)" *)
   Definition promote_branch (parent : list ident) (acc : list decl) (br : list decl) : list decl :=
     fold_left (record parent br) (sigma (map fst br)) acc.
 
@@ -68,7 +77,7 @@ Section Oracle.
     if tmem x acc then acc else acc ++ [x].
 
   (* while / for: names in order of first VarDecl in the body (body_decls = the names of the
-     VarDecl nodes met by _collect_order), then "for name in promoted_set" *)
+     VarDecl nodes met by _collect_order), then "for name in <sigma promoted_set>" *)
   Definition loop_order (body_decls : list ident) (names : list ident) : list ident :=
     fold_left add_new (sigma names)
       (fold_left add_new (filter (fun x => tmem x names) body_decls) []).
@@ -87,7 +96,7 @@ Inductive construct :=
 | CIf (parent : list ident) (brs : list (list decl))
 | CLoop (body_decls : list ident) (promoted : list decl).
 
-Definition promote (sigma : list ident -> list ident) (c : construct) : list decl :=
+Definition promote_with (sigma : list ident -> list ident) (c : construct) : list decl :=
   match c with
   | CIf parent brs => promote_if sigma parent brs
   | CLoop d s => promote_loop sigma d s
@@ -108,8 +117,11 @@ Fixpoint guard_if (parent acc : list ident) (brs : list (list decl)) : bool :=
   | br :: r => let e := effective parent acc br in (List.length e <=? 1)%nat && guard_if parent (acc ++ e) r
   end.
 
-(* guard of the _partial theorem: every branch contributes at most one name that is not yet recorded; every
-   new name of a loop body is met as a VarDecl by _collect_order *)
+(* the region in which even an UNSORTED walk of the sets is harmless (the guard of the _partial theorem that stood while
+   F-C10-promotion-order was open): every branch contributes at most one name that is not yet recorded; every new name of a
+   loop body is met as a VarDecl by _collect_order.  No theorem about [promote] / [transl] needs it; [w_ok] / [o_ok] carry
+   it so that the harness can measure how many generated programs lie outside it (the region the repair opened) and so
+   that C10_repair_conservative can be stated *)
 Definition guard (c : construct) : bool :=
   match c with
   | CIf parent brs => guard_if parent [] brs
@@ -198,7 +210,7 @@ Definition new_decls (base child : pctx) : list decl :=
 Definition push_types (ds : list decl) (tys : list decl) : list decl := rev ds ++ tys.
 
 Section Walk.
-  (* what the promotion of one construct yields (instantiated with [promote (sigma o)]) *)
+  (* what the promotion of one construct yields (instantiated with [promote_with (sigma o)]) *)
   Variable P : otag -> construct -> list decl.
 
   (* _make_promotion_decls + the rest of the handler, common to all four constructs *)
@@ -289,31 +301,26 @@ Section Walk.
     p_out (fold_left walk_item p (mk_ps (mk_pctx [] []) (mk_out [] [] [] [] true))).
 End Walk.
 
-(* the translation under a family of oracles, one per construct (tag) *)
-Definition transl (sigma : otag -> list ident -> list ident) (p : list item) : prog_out :=
-  walk_prog (fun o c => promote (sigma o) c) p.
+(* the whole-program skeleton when every `for name in <set>` walks [iter o names] (one [iter] per construct tag) *)
+Definition transl_with (iter : otag -> list ident -> list ident) (p : list item) : prog_out :=
+  walk_prog (fun o c => promote_with (iter o) c) p.
 
 Definition perm_family (sigma : otag -> list ident -> list ident) : Prop :=
   forall o, perm_oracle (sigma o).
+
+(* ---------------------------------------------------------------- the code as it is *)
+(* `for name in sorted(new_names)` in _promote_branch_decls (two sites) and `for name in sorted(promoted_set)` in the
+   while / for handlers: sorted() applied to the set as iterated under [sigma] *)
+Definition sorted_oracle (sigma : list ident -> list ident) (l : list ident) : list ident := sort (sigma l).
+
+Definition promote (sigma : list ident -> list ident) (c : construct) : list decl :=
+  promote_with (sorted_oracle sigma) c.
+
+(* the translation under a family of set-iteration oracles, one per construct (tag) *)
+Definition transl (sigma : otag -> list ident -> list ident) (p : list item) : prog_out :=
+  walk_prog (fun o c => promote (sigma o) c) p.
 
 (* a "session": transpiling several programs one after the other.  The model has no state
    argument to thread: that is the statelessness claim, its content is the tie *)
 Definition session (sigma : otag -> list ident -> list ident) (ps : list (list item)) : list prog_out :=
   map (transl sigma) ps.
-
-(* ---------------------------------------------------------------- the candidate repair *)
-(* the minimal patch: `for name in sorted(new_names)` in _promote_branch_decls and `for name in
-   sorted(promoted_set)` in the while / for handlers.  Same algorithm with [sort] put after the oracle. *)
-Definition sorted_oracle (sigma : list ident -> list ident) (l : list ident) : list ident := sort (sigma l).
-
-Definition promote_fixed (sigma : list ident -> list ident) (c : construct) : list decl :=
-  promote (sorted_oracle sigma) c.
-
-Definition transl_fixed (sigma : otag -> list ident -> list ident) (p : list item) : prog_out :=
-  walk_prog (fun o c => promote_fixed (sigma o) c) p.
-
-(* ---------------------------------------------------------------- the inventory check *)
-(* unsorted set iterations of the source that this file models: (function, iterable text) *)
-Definition modelled_sites : list (text * text) :=
-  [ (txt "_promote_branch_decls", txt "new_names");        (* promote_branch *)
-    (txt "_parse_simple_lines",   txt "promoted_set") ].   (* loop_order *)
